@@ -6,7 +6,7 @@ from fractions import Fraction
 
 from ..absint import TOP, Const, ExtRef, FuncRef, Interp, ListOf, Tup
 from ..cfg import backward_slice_names
-from ..domains.affine import A, Poly, mkA
+from ..domains.affine import A, ONE as ONE_, Poly, mkA
 from ..domains.arrays import Arr, ArrayDomain, Seq, Vec3
 from ..repo import calls_in, dotted, norm_src, walk_no_nested
 from .common import need_funcs
@@ -153,7 +153,103 @@ def refinement_clause(model, rep, funcs):
            stmt="UPSAMPLE uses")
 
 
-def pcc_bounds_clause(model, rep, funcs):
+def _window_obligations(dom, rep, f, st, branch, pcs, i, sft, m_i, grid, cover=False):
+    """The refinement takes the argmax over a window [start, stop) of the up-sampled DFT samples.  Two obligations beyond the +-max_shifts bound:
+
+    E      the window is never empty (argmax of an empty array raises): upper end of the index range >= 0;
+    COVER  the window is not narrower than the limit asks for: its last (first) sample lies within one up-sampled step of +max_shifts (-max_shifts) unless the
+           sampled region itself ends earlier.  Otherwise a displacement inside the permitted range cannot be returned (necessary for C01)."""
+    from ..domains.affine import A as _A, Poly as _Poly
+    names = [nm for nm in dom.base_syms([sft]) if nm.startswith("argmax#") and nm in dom.ranges]
+    direct = [nm for nm in names if ("sym", nm) in set(sft.num.atoms())]
+    if len(direct) != 1:
+        return
+    nm = direct[0]
+    lo, hi = dom.ranges[nm]
+    if hi is None or lo is None or hi.den != ONE_ or lo.den != ONE_:
+        return
+    rep.instance("A.window", f"{f.loc(st)} pcc window axis {i} [{branch}]")
+    r = dom.prove_ge_form(hi, pcs)
+    det = ""
+    if not r:
+        w = dom.find_witness(hi, pcs, tol=TOL)
+        r, det = (False, f"the refinement window is empty for {w[0]} (size {w[1] + 1:.0f}): argmax of an empty array raises") if w is not None else \
+            (None, f"cannot prove that the window has at least one sample (last index {hi!r})"[:400])
+    rep.ob("A", f.anchor, f"axis {i}: the up-sampled refinement window contains at least one sample (branch {branch})", r, det[:600], node=st, fn=f,
+           clause="1 refinement", stmt=norm_src(st) + f" @ {branch} #nonempty{i}")
+    if not grid or not cover:
+        return  # COVER is not part of C05 (a narrower window still respects the bound); it is emitted for C01 through window_cover_obligations
+    R, uf, offs, gnode = grid[-1]
+    ov = dom.vec(offs)
+    R, uf = dom.lift(R), dom.lift(uf)
+    if ov is None or R is None or uf is None or i >= len(ov):
+        return
+    off = ov[i]
+    # in units of up-sampled samples (multiplied by upsample_factor > 0): k - off = shift * uf
+    def samples(num):
+        return dom.norm(_A(num * uf.num, sft.den * uf.den))
+
+    sub_hi = samples(sft.num.subs({("sym", nm): hi.num}))
+    sub_lo = samples(sft.num.subs({("sym", nm): lo.num}))
+    if not (sub_hi.is_poly() and sub_lo.is_poly()):
+        return
+    region_hi = dom.add(dom.add(R, mkA(-1)), dom.neg(off))
+    region_lo = dom.neg(off)
+    m_s = dom.norm(_A(m_i.num * uf.num, m_i.den * uf.den))
+    want_hi = dom.call_external(None, "builtins.min", None, [region_hi, dom.add(m_s, mkA(-1))], {}, None)
+    want_lo = dom.call_external(None, "builtins.max", None, [region_lo, dom.add(dom.neg(m_s), mkA(1))], {}, None)
+    rep.instance("COVER.window", f"{f.loc(st)} pcc window axis {i} [{branch}]")
+    for side, goal in (("upper", dom.add(sub_hi, dom.neg(want_hi))), ("lower", dom.add(want_lo, dom.neg(sub_lo)))):
+        r = dom.prove_ge_form(goal, pcs)
+        det = ""
+        if not r:
+            w = dom.find_witness(goal, pcs, tol=TOL)
+            if w is not None:
+                r, det = False, (f"for {w[0]} the window stops {-w[1]:.2f} up-sampled samples short of the {side} end of the permitted range although the sampled region "
+                                 f"reaches further: shifts there can never be returned")
+            else:
+                r, det = None, f"cannot prove that the window reaches the {side} end of the permitted range"
+        rep.ob("COVER", f.anchor, f"axis {i}: the refinement window reaches the {side} limit ({'+' if side == 'upper' else '-'}max_shifts) to within one "
+               f"up-sampled step, or the end of the sampled region (branch {branch})", r, det[:700], node=st, fn=f, clause="1 refinement",
+               stmt=norm_src(st) + f" @ {branch} #cover-{side}{i}")
+
+
+class OnlyRule:
+    """View of a report that keeps the obligations and instances of one rule (a clause shared with another property)."""
+
+    def __init__(self, rep, rule, clause=None):
+        self._rep, self._rule, self._clause = rep, rule, clause
+
+    def ob(self, rule, *a, **kw):
+        if rule == self._rule:
+            if self._clause is not None:
+                kw["clause"] = self._clause
+            return self._rep.ob(rule, *a, **kw)
+
+    def instance(self, rule, *a, **kw):
+        if rule.split(".")[0] == self._rule:
+            return self._rep.instance(rule, *a, **kw)
+
+    def note(self, *a, **kw):
+        pass
+
+    def __getattr__(self, k):
+        return getattr(self._rep, k)
+
+
+def window_cover_obligations(model, rep, clause):
+    """COVER (the PCC refinement window reaches the permitted limits) for the properties that need the displacement to be found, not only bounded (C01)."""
+    try:
+        f = model.func(BP + "subpixel_pcc")
+    except Exception:
+        f = None
+    if f is None:
+        rep.error("subpixel_pcc not found")
+        return
+    pcc_bounds_clause(model, OnlyRule(rep, "COVER", clause), {BP + "subpixel_pcc": f}, cover=True)
+
+
+def pcc_bounds_clause(model, rep, funcs, want_window=True, cover=False):
     """Clause 1b: the phase-correlation refinement (coarse FFT peak + up-sampled DFT window) stays within +-max_shifts."""
     f = funcs.get(BP + "subpixel_pcc")
     if f is None:
@@ -171,6 +267,14 @@ def pcc_bounds_clause(model, rep, funcs):
             rets.append((st, val, env))
 
     it.on_return.append(on_return)
+    grid: list = []
+
+    def on_call(interp, fn, node, callee, args, kwargs, env):
+        # the sampling grid of the up-sampled DFT: sample k of axis i is the correlation at shift (k - axis_offsets[i]) / upsample_factor
+        if fn is f and isinstance(callee, FuncRef) and callee.funcs and callee.funcs[0].name == "_upsampled_dft" and len(args) >= 4:
+            grid.append((args[1], args[2], args[3], node))
+
+    it.on_call.append(on_call)
     it.run(f, args={"f0": Arr(n, layout="fft"), "f1": Arr(n, layout="fft"), "upsample_factor": dom.sym("upsample_factor"), "max_shifts": m,
                     "backend": ExtRef("numpy")})
     if not rets:
@@ -228,6 +332,8 @@ def pcc_bounds_clause(model, rep, funcs):
                         ok, det = None, f"cannot prove the {side} bound for shift = {sft!r}"[:500]
                 rep.ob("A", f.anchor, f"axis {i}: PCC shift {'<=' if side == 'upper' else '>='} {'+' if side == 'upper' else '-'}max_shifts (branch {branch})",
                        ok, det, node=st, fn=f, clause="1 refinement", stmt=norm_src(st) + f" @ {branch} #{side}{i}")
+            if coarse_ok and want_window:
+                _window_obligations(dom, rep, f, st, branch, pcs, i, sft, m.items[i], grid, cover=cover)
 
 
 # --------------------------------------------------------------------------- clause 2: integer crop
